@@ -290,7 +290,12 @@ func (c *FailoverController) ForceFailover(reason string) error {
 	c.logger.Warn("Forcing failover",
 		zap.String("reason", reason),
 	)
-	return c.initiateFailover(reason)
+	if err := c.initiateFailover(reason); err != nil {
+		return err
+	}
+	// initiateFailover only moves the state to in-progress; carry the failover out.
+	go c.executeFailover(reason)
+	return nil
 }
 
 // ForceFailback forces an immediate failback (for manual intervention).
@@ -408,6 +413,14 @@ func (c *FailoverController) initiateFailover(reason string) error {
 	if c.currentRole == RoleActive {
 		return fmt.Errorf("already active, cannot failover")
 	}
+	if c.state == FailoverStateInProgress {
+		return fmt.Errorf("failover already in progress")
+	}
+
+	// A failover scheduled by the health monitor is superseded by this one.
+	if c.failoverTimer != nil {
+		c.failoverTimer.Stop()
+	}
 
 	c.state = FailoverStateInProgress
 	atomic.AddUint64(&c.failoversInitiated, 1)
@@ -433,6 +446,10 @@ func (c *FailoverController) executeFailover(reason string) {
 		return
 	}
 
+	// A forced failover was already counted by initiateFailover.
+	if c.state == FailoverStatePending {
+		atomic.AddUint64(&c.failoversInitiated, 1)
+	}
 	c.state = FailoverStateInProgress
 	oldRole := c.currentRole
 	newRole := RoleActive
@@ -444,8 +461,6 @@ func (c *FailoverController) executeFailover(reason string) {
 		zap.String("old_role", string(oldRole)),
 		zap.String("new_role", string(newRole)),
 	)
-
-	atomic.AddUint64(&c.failoversInitiated, 1)
 
 	// Apply grace period for traffic draining
 	if c.config.GracePeriod > 0 {
